@@ -14,7 +14,7 @@ def parts(pipe="single", fluid=("Water", 0.0), soil=(2.0, 2343493.0, 18.3), grou
 
 
 def make_ghe(coords, pipe="single", H=100.0, loads=None, months=12, flow_per_bh=0.5, hvals=None, fluid=("Water", 0.0),
-             soil=(2.0, 2343493.0, 18.3), grout=(1.0, 3901000.0), rb=0.075, system_flow=None, gfunc=None, **kw):
+             soil=(2.0, 2343493.0, 18.3), grout=(1.0, 3901000.0), rb=0.075, system_flow=None, gfunc=None, load_years=None, **kw):
     """system_flow: if given, the GHE is built from a system flow (L/s) instead of per-borehole flow"""
     from ghedesigner.borehole import GHEBorehole
     from ghedesigner.gfunction import calc_g_func_for_multiple_lengths
@@ -33,7 +33,7 @@ def make_ghe(coords, pipe="single", H=100.0, loads=None, months=12, flow_per_bh=
     with warnings.catch_warnings():
         warnings.simplefilter("ignore")
         ghe = GHE(v_sys, b, m.pipe_type, m._fluid, bh, m._pipe, m._grout, m._soil, gfunc, m._simulation_parameters,
-                  loads if loads is not None else [0.0] * 8760)
+                  loads if loads is not None else [0.0] * 8760, load_years=load_years)
     return ghe
 
 
